@@ -21,7 +21,7 @@ enum Plan {
     M(MigratePipelinePlan),
 }
 
-pub fn project(c: &Coordinator, gids: &BTreeMap<String, String>) -> J {
+pub fn project(c: &Coordinator, gids: &BTreeMap<String, String>, incs: &BTreeMap<String, u64>) -> J {
     let mut workers = serde_json::Map::new();
     for w in WS {
         let v = match c.workers.get(&WorkerId(w.into())) {
@@ -45,7 +45,8 @@ pub fn project(c: &Coordinator, gids: &BTreeMap<String, String>) -> J {
             };
             pl.insert(p.into(), v);
         }
-        groups.insert(g.into(), json!({"exists": grp.is_some(), "pl": pl}));
+        // inc: how many times a group of this name has been created (the coordinator gives each creation a fresh id)
+        groups.insert(g.into(), json!({"exists": grp.is_some(), "pl": pl, "inc": incs.get(g).copied().unwrap_or(0)}));
     }
     json!({"workers": workers, "groups": groups})
 }
@@ -58,6 +59,7 @@ fn run_history_cap(hist: &[J], cap: Option<usize>) -> Vec<J> {
     let mut c = Coordinator::new();
     let mut plans: BTreeMap<u64, Plan> = BTreeMap::new();
     let mut gids: BTreeMap<String, String> = BTreeMap::new();
+    let mut incs: BTreeMap<String, u64> = BTreeMap::new();
     let mut next_plan_id = 0u64;
     let mut out = vec![json!({"ev": "reset"})];
     for a in hist {
@@ -98,7 +100,7 @@ fn run_history_cap(hist: &[J], cap: Option<usize>) -> Vec<J> {
                         let results = plan.tasks.iter().map(|t| DeployTaskResult { replica_name: t.replica_name.clone(), pipeline_name: t.pipeline_name.clone(), worker_id: t.worker_id.clone(),
                             worker_address: t.worker_address.clone(), worker_api_key: t.worker_api_key.clone(), replica_count: t.replica_count,
                             outcome: if a["ok"][&t.pipeline_name].as_bool().unwrap() { Ok(DeployResponse { id: format!("pid-{}", t.pipeline_name), name: t.replica_name.clone(), status: "running".into() }) } else { Err("boom".into()) } }).collect();
-                        match c.commit_deploy_group(plan, results) { Ok(id) => { gids.insert(g, id); } Err(_) => ok = false }
+                        match c.commit_deploy_group(plan, results) { Ok(id) => { *incs.entry(g.clone()).or_insert(0) += 1; gids.insert(g, id); } Err(_) => ok = false }
                     }
                     _ => ok = false,
                 }
@@ -130,7 +132,7 @@ fn run_history_cap(hist: &[J], cap: Option<usize>) -> Vec<J> {
         if act == "commit_migrate" { rec["okflag"] = a["ok"].clone(); }
         rec["ok"] = json!(ok);
         rec["res"] = res;
-        rec["st"] = project(&c, &gids);
+        rec["st"] = project(&c, &gids, &incs);
         out.push(rec);
     }
     out
